@@ -149,7 +149,7 @@ func goodTempl(r *rand.Rand, pkg string, big bool) string {
 	g.sb.WriteString("script hello0(n string) {\n\talert(n);\n}\n\n")
 	nc := 1 + r.Intn(4)
 	if big {
-		nc = 60 + r.Intn(120)
+		nc = 30 + r.Intn(50)
 	}
 	for i := 0; i < nc; i++ {
 		name := fmt.Sprintf("C%d", i)
